@@ -30,6 +30,7 @@ import (
 	"github.com/polynetwork/poly/core/types"
 	_ "github.com/polynetwork/poly/native/service"
 	"github.com/polynetwork/poly/native/service/governance/node_manager"
+	"github.com/polynetwork/poly/native/service/governance/signature_manager"
 	"github.com/polynetwork/poly/native/service/utils"
 	"verif.local/engine/ev"
 	"verif.local/engine/lib/src"
@@ -506,6 +507,73 @@ func main() {
 		r.Case(fmt.Sprintf("gov N=%d need=%d", N, need))
 		if need != want {
 			r.Violation("threshold-measured:node_manager.CheckConsensusSigns", map[string]any{"N": N, "approvals_needed_measured": need, "formula_ceil(2N/3)": want})
+		}
+	}
+	// ---- dynamic cross-check 2b: governance thresholds are thresholds on DISTINCT validators -----------------------
+	// signature_manager.AddSignature (CheckSigns) and node_manager approvals (CheckConsensusSigns): the quorum event / effect
+	// must need ceil(2N/3) distinct validators under every submission pattern of the alphabet — each validator once; each
+	// validator followed by a re-submission of identical bytes; each validator followed by a re-submission with other
+	// signature bytes; all re-submissions by the first validator only.
+	for N := 1; N <= r.QT(8, 10); N++ {
+		want := (2*N + 2) / 3
+		for _, pat := range []string{"once", "resubmit-same", "resubmit-other-bytes", "first-validator-repeats"} {
+			vals := polyenv.Keys(N)
+			polyenv.Setup(0, vals)
+			polyenv.InstallHeightLedger()
+			w := polyenv.NewWorld()
+			w.Genesis(vals)
+			nonce := uint32(1)
+			fired := func(res polyenv.Result) bool {
+				if res.Notify == nil {
+					return false
+				}
+				for _, e := range res.Notify.Notify {
+					if st, ok := e.States.([]interface{}); ok && len(st) > 0 && st[0] == "AddSignatureQuorum" {
+						return true
+					}
+				}
+				return false
+			}
+			submit := func(v *polyenv.Acct, sig []byte) bool {
+				sk := common.NewZeroCopySink(nil)
+				(&signature_manager.AddSignatureParam{Address: v.Addr, SideChainID: 7, Subject: []byte("subject-c42"), Signature: sig}).Serialization(sk)
+				nonce++
+				res := w.Exec(polyenv.Tx(utils.SignatureManagerContractAddress, signature_manager.ADD_SIGNATURE, sk.Bytes(), nonce, polyenv.Single(v)), 1, 10)
+				dyn++
+				r.Eval()
+				if !res.OK {
+					r.HarnessError("addSignature failed: %v", res.Err)
+				}
+				return fired(res)
+			}
+			need := -1
+			for k := 1; k <= N && need < 0; k++ {
+				v := vals[k-1]
+				if submit(v, []byte{1, byte(k)}) {
+					need = k
+					break
+				}
+				switch pat {
+				case "resubmit-same":
+					if submit(v, []byte{1, byte(k)}) {
+						need = k
+					}
+				case "resubmit-other-bytes":
+					if submit(v, []byte{2, byte(k)}) || submit(v, []byte{3, byte(k)}) {
+						need = k
+					}
+				case "first-validator-repeats":
+					if submit(vals[0], []byte{4, byte(k)}) {
+						need = k
+					}
+				}
+			}
+			w.Close()
+			r.Case(fmt.Sprintf("sigmgr N=%d %s need=%d", N, pat, need))
+			if need != want {
+				r.Violation("threshold-measured:signature_manager.CheckSigns", map[string]any{"N": N, "pattern": pat,
+					"distinct_validators_at_quorum_event": need, "formula_ceil(2N/3)": want})
+			}
 		}
 	}
 	// ---- dynamic cross-check 3: real ledger verifyHeader (block path), all three rules --------------
